@@ -69,6 +69,7 @@ static long long hstep(long long h, long long x) { return (h * 31337 + (((x + 12
 
 static bool g_hash = false;
 static bool g_multi = false;
+static bool g_search = false;   // `search` in the case configuration: one short line per operation (size, real depth, imbalance)
 
 template<class C> struct Drv
 {
@@ -88,15 +89,28 @@ template<class C> struct Drv
     long r = 0;
     for(It i = c.begin(); i != c.end() && i != it; ++i) ++r;
     printf("@%ld:%d:%d:%ld", r, it.key().k, *it, tab_get(it.item));
-    // the const overloads of ++ / -- (return a new Iterator) must agree with the in-place ones
+    // Every accessor of the Iterator, const and non-const overload, against the raw Item the iterator designates
+    // (Iterator has: key() const; operator* const / non-const; operator-> const / non-const; ++ / -- in place and
+    // as const members returning a new Iterator; == / !=).
+    const Item* raw = it.item;
     const It cit = it;
     It a = it, b = it;
-    ++a; --b;
-    It na = ++cit, nb = --cit;
-    if(na != a) printf("!const-inc");
-    if(nb != b) printf("!const-dec");
+    const It& ra = ++a;                   // non-const ++ / --: move in place and return *this
+    const It& rb = --b;
+    It na = ++cit, nb = --cit;            // const ++ / --: a new Iterator, the receiver stays
+    if(a.item != raw->next || &ra != &a) printf("!inc");
+    if(b.item != raw->prev || &rb != &b) printf("!dec");
+    if(na.item != raw->next || cit.item != raw) printf("!const-inc");
+    if(nb.item != raw->prev || cit.item != raw) printf("!const-dec");
+    if(!(na == a) || (na != a) || !(nb == b) || (nb != b) || na == cit || !(na != cit) || !(cit == it) || (cit != it)) printf("!eq");
     const It& kit = it;
-    if(kit.key().k != it.item->key.k || *kit != it.item->value || &*kit != kit.operator->()) printf("!const-deref");
+    if(&kit.key() != &raw->key || &*kit != &raw->value || kit.operator->() != &raw->value) printf("!const-deref");
+    It m = it;                            // non-const operator* and operator->
+    int& mref = *m;
+    int* mptr = m.operator->();
+    if(&mref != &raw->value || mptr != &raw->value || m.item != raw) printf("!deref");
+    It dflt;                              // default construction: designates nothing
+    if(dflt.item != 0) printf("!default");
   }
 
   static void unmap_all(C& c) { for(It i = c.begin(); i != c.end(); ++i) tab_del(i.item); }
@@ -204,9 +218,34 @@ template<class C> struct Drv
     else printf("c#%lld", h);
   }
 
+  // real height of a subtree (from the links, not from the stored height field); bad += excess imbalance
+  static long depth_of(const Item* it, long& bad)
+  {
+    if(!it) return 0;
+    long a = depth_of(it->left, bad), b = depth_of(it->right, bad);
+    long d = a > b ? a - b : b - a;
+    if(d >= 2) bad += (d - 1) * (1 + (a > b ? a : b));   // weighted by the height of the node: a defect high up counts more
+    return 1 + (a > b ? a : b);
+  }
+
+  static void shape_hash(const Item* it, long long& h)
+  {
+    if(!it) { h = hstep(h, -1); return; }
+    h = hstep(h, it->key.k);
+    shape_hash(it->left, h);
+    shape_hash(it->right, h);
+  }
+
   // `other` != 0: an operation that reads the other container - its public and internal state is dumped too
   static void state_out(C& c, C* other)
   {
+    if(g_search) {   // used by the depth search of checks/C01.py only (implementation alone, no model / reference run)
+      long bad = 0, d = depth_of(c.root, bad);
+      long long h = 7;
+      shape_hash(c.root, h);
+      printf(" | %lu %ld %ld %lld\n", (unsigned long)c.size(), d, bad, h);
+      return;
+    }
     if(other) { printf(" o=%lu ", (unsigned long)other->size()); iter_out(*other); }
     printf(" | %lu %d ", (unsigned long)c.size(), c.isEmpty() ? 1 : 0);
     iter_out(c);
@@ -229,11 +268,21 @@ template<class C> struct Drv
       else { It pos = at_rank(c, atol(t.v[1])); it = c.insert(pos, CountKey(atoi(t.v[2])), atoi(t.v[3])); }
       if(c.size() > before) tab_put(it.item, next_slot++);
       put_iter(c, it);
-    } else if(!strcmp(name, "remk")) {
+    } else if(!strcmp(name, "remk") || !strcmp(name, "remkc")) {
+      // Which entries go is observed, not assumed (the property text does not say which entry of a run of equal
+      // keys remove(key) takes): the Items in iteration order before, compared with those after.
       CountKey k(atoi(t.v[1]));
-      It it = c.find(k);
-      if(it != c.end()) tab_del(it.item);
+      usize n0 = c.size(), j = 0;
+      const Item** before = (const Item**)malloc(sizeof(Item*) * (n0 + 1));
+      for(It i = c.begin(); i != c.end() && j < n0; ++i) before[j++] = i.item;
+      n0 = j;
       c.remove(k);
+      It i = c.begin();
+      for(j = 0; j < n0; ++j) {
+        if(i != c.end() && i.item == before[j]) ++i;
+        else tab_del(before[j]);          // gone: its slot disappears with it
+      }
+      free(before);
       putchar('-');
     } else if(!strcmp(name, "remi")) {
       long p = atol(t.v[1]);
@@ -312,10 +361,11 @@ static MM* mms[2] = {0, 0};
 
 static void begin(long, vh::Tok& t)
 {
-  g_multi = false; g_hash = false; g_cur = 0;
+  g_multi = false; g_hash = false; g_search = false; g_cur = 0;
   for(int i = 2; i < t.n; ++i) {
     if(!strcmp(t.v[i], "multimap")) g_multi = true;
     if(!strcmp(t.v[i], "hash")) g_hash = true;
+    if(!strcmp(t.v[i], "search")) g_search = true;
   }
   for(int i = 0; i < 2; ++i) { delete ms[i]; delete mms[i]; ms[i] = new M; mms[i] = new MM; }
   tab_clear();
